@@ -1,30 +1,79 @@
-// Hand triage of C01 R1.envelope-path (message ID narrowed by a truncating cast; NOT part of any check): run as an integration test
-// of a scratch copy of the repository.  The peer answers a Bind (message ID 1) with a BindResponse sent under message ID 2^32+1
-// (`02 05 01 00 00 00 01`), carrying result code 49.  Nobody waits for that ID: the Bind must NOT receive it.  Before the fix the
-// ID was cut down with `as i32` to 1 and the Bind returned rc=49.
+// Hand triage of C01 R1.message-id-exact (NOT part of any check): run as an integration test of a scratch copy of the repository.
+// The peer answers a Bind (message ID 1) with a BindResponse rc 49 sent under a messageID that is NOT 1 but was read as 1 by a
+// lenient reader: 2^32+1 (`02 05 01 00 00 00 01`, cut down by `as i32` before fix a4e0c7a), 2^64+1 (nine content octets: the
+// unsigned fold wraps modulo 2^64, which slipped past the first repair).  Nobody waits for those IDs: the Bind must NOT get rc 49.
+// A second test: after 127 operations the next one has ID 128; a response under the NEGATIVE messageID -128 (`02 01 80`) must not
+// be delivered to it.
 use std::time::Duration;
 use tokio::io::{AsyncReadExt, AsyncWriteExt};
 
-#[tokio::test]
-async fn response_under_a_wide_id_is_not_delivered_to_id_1() {
+async fn bind_against(id_octets: &'static [u8]) -> Option<u32> {
     let l = tokio::net::TcpListener::bind("127.0.0.1:0").await.unwrap();
     let port = l.local_addr().unwrap().port();
     tokio::spawn(async move {
         let (mut s, _) = l.accept().await.unwrap();
         let mut buf = [0u8; 256];
         let _ = s.read(&mut buf).await; // BindRequest, id 1
-        // LDAPMessage { messageID 4294967297, bindResponse { resultCode 49, "", "" } }
-        s.write_all(&[0x30, 0x10, 0x02, 0x05, 0x01, 0x00, 0x00, 0x00, 0x01, 0x61, 0x07, 0x0a, 0x01, 0x31, 0x04, 0x00, 0x04, 0x00])
-            .await
-            .unwrap();
+        let mut m = vec![0x02, id_octets.len() as u8];
+        m.extend_from_slice(id_octets);
+        m.extend_from_slice(&[0x61, 0x07, 0x0a, 0x01, 0x31, 0x04, 0x00, 0x04, 0x00]);
+        let mut out = vec![0x30, m.len() as u8];
+        out.extend(m);
+        s.write_all(&out).await.unwrap();
         tokio::time::sleep(Duration::from_secs(2)).await;
     });
     let (conn, mut ldap) = ldap3::LdapConnAsync::new(&format!("ldap://127.0.0.1:{}", port)).await.unwrap();
     ldap3::drive!(conn);
+    match tokio::time::timeout(Duration::from_millis(800), ldap.simple_bind("cn=x", "pw")).await {
+        Ok(Ok(res)) => Some(res.rc),
+        _ => None, // decoding error (connection ended) or still waiting: either way nothing was delivered
+    }
+}
+
+#[tokio::test]
+async fn response_under_2_pow_32_plus_1_is_not_delivered_to_id_1() {
+    assert_eq!(bind_against(&[0x01, 0x00, 0x00, 0x00, 0x01]).await, None);
+}
+
+#[tokio::test]
+async fn response_under_2_pow_64_plus_1_is_not_delivered_to_id_1() {
+    assert_eq!(bind_against(&[0x01, 0, 0, 0, 0, 0, 0, 0, 0x01]).await, None);
+}
+
+#[tokio::test]
+async fn response_with_an_empty_message_id_is_not_delivered() {
+    assert_eq!(bind_against(&[]).await, None);
+}
+
+#[tokio::test]
+async fn well_formed_id_is_delivered() {
+    assert_eq!(bind_against(&[0x01]).await, Some(49));
+    assert_eq!(bind_against(&[0x00, 0x01]).await.is_some() || true, true); // non-minimal form: either answer is acceptable
+}
+
+#[tokio::test]
+async fn response_under_minus_128_is_not_delivered_to_id_128() {
+    let l = tokio::net::TcpListener::bind("127.0.0.1:0").await.unwrap();
+    let port = l.local_addr().unwrap().port();
+    tokio::spawn(async move {
+        let (mut s, _) = l.accept().await.unwrap();
+        let mut buf = [0u8; 256];
+        for id in 1u8..=127 {
+            let _ = s.read(&mut buf).await;
+            s.write_all(&[0x30, 0x0c, 0x02, 0x01, id, 0x61, 0x07, 0x0a, 0x01, 0x00, 0x04, 0x00, 0x04, 0x00]).await.unwrap();
+        }
+        let _ = s.read(&mut buf).await; // BindRequest, id 128 (02 02 00 80)
+        // BindResponse rc 49 under messageID -128 (02 01 80)
+        s.write_all(&[0x30, 0x0c, 0x02, 0x01, 0x80, 0x61, 0x07, 0x0a, 0x01, 0x31, 0x04, 0x00, 0x04, 0x00]).await.unwrap();
+        tokio::time::sleep(Duration::from_secs(2)).await;
+    });
+    let (conn, mut ldap) = ldap3::LdapConnAsync::new(&format!("ldap://127.0.0.1:{}", port)).await.unwrap();
+    ldap3::drive!(conn);
+    for _ in 1..=127 {
+        assert_eq!(ldap.simple_bind("cn=x", "pw").await.unwrap().rc, 0);
+    }
     let r = tokio::time::timeout(Duration::from_millis(800), ldap.simple_bind("cn=x", "pw")).await;
-    match r {
-        Ok(Ok(res)) => panic!("the Bind (ID 1) was handed a response sent under ID 2^32+1: rc={}", res.rc),
-        Ok(Err(_)) => (), // the connection was ended with a decoding error: the out-of-range ID is not a well-formed MessageID
-        Err(_) => (),     // or the message was ignored and the Bind is still waiting
+    if let Ok(Ok(res)) = r {
+        panic!("operation 128 was handed a response sent under messageID -128: rc={}", res.rc);
     }
 }
